@@ -4,7 +4,9 @@ import json, os
 ROOT = os.path.dirname(os.path.dirname(os.path.abspath(__file__)))
 TECH = "Lean 4 theorem on a hand-written model + differential correspondence (real code vs. compiled model) + Lean monitor (the theorem's predicate) on implementation traces"
 NOTE_COMMON = ("Tables and constants shared with the source (verb chain, reply-class thresholds, line limit, block sizes) are regenerated "
-               "from the tree on every run (tools/gen_source_facts.py -> Ftp/Generated/SourceFacts.lean) and proved equal to the model's (Props/*s.lean). "
+               "from the tree on every run (tools/gen_source_facts.py -> Ftp/Generated/SourceFacts.lean), as are the one-command member functions of "
+               "ftp::client (translated into model programs) and the command literals / decisive reply codes of src/client.cpp "
+               "(-> Ftp/Generated/ClientFacts.lean), and proved equal to the model's (Props/*s.lean). "
                "Trusted: Lean kernel (axioms propext, Classical.choice, Quot.sound only; audited each run), the hand-written model and "
                "reference spec, the harness/generators; the tie model<->code is differential testing (sampling + stated exhaustive scopes), not proof. ")
 
@@ -102,8 +104,10 @@ CLAIMS = {
         "sink / the returned text holds exactly the payload (dlSpec for ASCII), flushed once, no descriptor left, session in step "
         "again. TLS layer (C03t.lean): the same for downloadT on a protected session after a successful data handshake, with no "
         "payload event before the handshake. Correspondence: real ftp::client (in-memory control channel, real loopback data "
-        "connections to a scripted peer) x payload sizes around the 8192-byte block x four methods x IPv4/IPv6, listings included.",
-   note="TCP delivery itself is trusted; TLS data connections are exercised by the e2e stage.", ref="DESIGN.md section 7 C03"),
+        "connections to a scripted peer) x payload sizes around the 8192-byte block x four methods x IPv4/IPv6, listings included; "
+        "2-4 clients of one process transferring concurrently, each against its own server (stage conc).",
+   note="TCP delivery itself is trusted; TLS data connections are exercised by the e2e stage; that clients of one process share no state "
+        "is a modelling assumption exercised by the conc stage.", ref="DESIGN.md section 7 C03"),
  "C04": dict(
    text="Theorems for every payload and every short-read pattern of the source: the bytes written to the data connection are exactly the "
         "source bytes (ASCII: ulSpec), blocks never exceed 8192 bytes, the data socket is shut down and closed before the completion reply "
